@@ -34,6 +34,8 @@ func (d DB) Lock(c context.Context, id *url.URL) error {
 		if a.S.Aborting {
 			return nil
 		}
+		r.WaitSite = LibFrame()
+		r.WaitID = ids
 		a.S.Point(r.T, mc.Op{Name: "DB.Lock", Res: ids, Acquire: true})
 		a.Log = append(a.Log, Call{Req: r.ID, Op: "DB.Lock", Arg: ids})
 		a.gate(r, "DB.Lock")
@@ -350,6 +352,11 @@ func (d DB) NewID(c context.Context, t vocab.Type) (*url.URL, error) {
 	}
 	a.NextID++
 	id := fmt.Sprintf("https://%s/id/%d", LocalHost, a.NextID)
+	if r := reqOf(c); r != nil {
+		// ids are named after the request, so that they do not depend on the interleaving
+		r.IDs++
+		id = fmt.Sprintf("https://%s/id/r%d-%d", LocalHost, r.ID, r.IDs)
+	}
 	a.note(idx, c, id)
 	return U(id), nil
 }
